@@ -264,17 +264,68 @@ func readView(pts []Pt, rds []uint64, r uint64) view {
 	return view{has: has, val: v, op: opTransparent}
 }
 
-// compareViews applies the oracle to one (key, read point). perm: tombstones at this key may be
-// elided. bottomOK: the compaction is the bottommost data layer, so a read that ends on an entry
-// rewritten to sequence number zero may have gained a base (MERGE -> SET, documented).
-func compareViews(in, out view, perm, bottommost bool) (class, why string) {
+// normalOpacity is the opacity of the read after SINGLEDELs have been resolved the way the
+// SingleDelete contract defines them: a SINGLEDEL and the single SET directly below it annihilate
+// (what lies below the pair decides), a SINGLEDEL above a DEL/DELSIZED/SETWITHDEL/range tombstone is
+// a hard tombstone, a SINGLEDEL above another SINGLEDEL is ineffectual, and a SINGLEDEL with nothing
+// below it in the stream is still pending (opSoft): it has to survive to meet its SET in a lower
+// level. This is the opacity a compaction must at least preserve.
+func normalOpacity(pts []Pt, rds []uint64, r uint64) int8 {
+	var t uint64
+	hasT := false
+	for _, s := range rds {
+		if s < r {
+			t, hasT = s, true
+			break
+		}
+	}
+	pending := false
+	for i := range pts {
+		e := &pts[i]
+		if e.Seq >= r {
+			continue
+		}
+		if hasT && e.Seq < t {
+			return opHard
+		}
+		switch e.Kind {
+		case KMerge:
+			pending = false // outside the contract (such streams are not generated): consumed like a SET
+		case KSet:
+			if !pending {
+				return opHard
+			}
+			pending = false
+		case KSingleDel:
+			pending = true
+		default:
+			return opHard
+		}
+	}
+	switch {
+	case hasT:
+		return opHard
+	case pending:
+		return opSoft
+	}
+	return opTransparent
+}
+
+// compareViews applies the oracle to one (key, read point). in/out are the plain reads (SINGLEDEL
+// reads as a deletion), inN/outN the opacities with SINGLEDELs resolved. perm: tombstones at this
+// key may be elided. bottommost: the compaction is the bottommost data layer, so a read that ends on
+// an entry rewritten to sequence number zero may have gained a base (MERGE -> SET, documented).
+func compareViews(in, out view, inN, outN int8, perm, bottommost bool) (class, why string) {
 	if in.has != out.has || in.val != out.val {
 		return "visible-value-differs", "visible value changed"
 	}
-	switch {
-	case in.op == opHard && out.op != opHard && !perm:
+	if outN < inN && !perm {
+		if inN == opSoft {
+			return "singledel-lost", "a SINGLEDEL that has not met its SET was dropped without elision permission"
+		}
 		return "opaque-became-transparent", "a tombstone or base that shadows lower levels was lost without elision permission"
-	case in.op == opTransparent && out.op != opTransparent:
+	}
+	if in.op == opTransparent && out.op != opTransparent {
 		if bottommost && out.op == opHard && !out.byRange && out.termSeq == 0 {
 			return "", ""
 		}
